@@ -543,7 +543,7 @@ func (x *Exec) modified(nodes []ast.Node, st *State) []types.Object {
 				if _, direct := unparen(e).(*ast.Ident); !direct {
 					// writing through a reference changes the heap, not the variable
 					switch v.(type) {
-					case VMapRef, VRef:
+					case VMapRef, VRef, VSub:
 						return
 					}
 				}
@@ -576,7 +576,8 @@ func (x *Exec) modified(nodes []ast.Node, st *State) []types.Object {
 									// a method called on a reference variable changes the heap (the
 									// callee's modifies clause), never the variable itself
 									if o := rootObj(sel.X, x.info); o != nil {
-										if _, isRef := st.env[o].(VRef); isRef {
+										switch st.env[o].(type) {
+										case VRef, VSub:
 											return true
 										}
 									}
@@ -668,7 +669,7 @@ func (x *Exec) loop(ls *loopSpec, st *State) *Flow {
 			head.env[o] = fx.havocLike(cur, o)
 		}
 	}
-	x.havocHeapLoop(ls, head)
+	havocked := x.havocHeapLoop(ls, head)
 	// 3. assume invariants
 	if ls.autoInv != nil {
 		fx.assume(head.pc, ls.autoInv(head))
@@ -698,6 +699,23 @@ func (x *Exec) loop(ls *loopSpec, st *State) *Flow {
 	}
 	f := x.block(ls.body, body)
 	out.rets = append(out.rets, f.rets...)
+	// the body may only have written heap locations that were havocked at the head
+	for _, after := range append(append([]*State{f.fall}, f.cont...), f.brk...) {
+		if after == nil {
+			continue
+		}
+		for k, t := range after.heap {
+			if k == "$alloc" || havocked[k] {
+				continue
+			}
+			if ht, ok := head.heap[k]; !ok || ht != t {
+				if !ok && t == fx.heapInit[k] {
+					continue
+				}
+				panic(unsupported{fmt.Sprintf("loop %d writes heap location %s, which the loop head did not havoc (engine limitation)", ls.ord, k)})
+			}
+		}
+	}
 	// every back edge is checked separately (no merged ite terms under the quantifiers)
 	var edges []*State
 	if f.fall != nil {
